@@ -99,6 +99,18 @@ func (c *Ctx) earlySuccessFindings(f *Fn) []earlyFinding {
 		}
 		checks = append(checks, chk{i, call})
 	}
+	// the verdict of a check handed on as the function's own: `return K(..)` as the last statement
+	if n := len(list); n > 0 {
+		if ret, ok := list[n-1].(*ast.ReturnStmt); ok && len(ret.Results) == 1 && sig.Results().Len() == 1 {
+			if call, ok := ast.Unparen(ret.Results[0]).(*ast.CallExpr); ok {
+				if cal := callee(f.Pkg, call); cal != nil && c.P.IsLibPkg(cal.Pkg()) {
+					if cs, ok := cal.Type().(*types.Signature); ok && cs.Results().Len() == 1 && isErrorLike(cs.Results().At(0).Type()) && !isErrorConstructor(cal) {
+						checks = append(checks, chk{n - 1, call})
+					}
+				}
+			}
+		}
+	}
 	earlyChecksSeen += len(checks)
 	if len(checks) == 0 {
 		return nil
@@ -115,10 +127,10 @@ func (c *Ctx) earlySuccessFindings(f *Fn) []earlyFinding {
 		if len(later) == 0 {
 			continue
 		}
-		if _, isIf := st.(*ast.IfStmt); !isIf {
-			if _, isSw := st.(*ast.SwitchStmt); !isSw {
-				continue
-			}
+		switch st.(type) {
+		case *ast.IfStmt, *ast.SwitchStmt, *ast.ForStmt, *ast.RangeStmt:
+		default:
+			continue
 		}
 		ast.Inspect(st, func(n ast.Node) bool {
 			if _, isLit := n.(*ast.FuncLit); isLit {
@@ -135,6 +147,16 @@ func (c *Ctx) earlySuccessFindings(f *Fn) []earlyFinding {
 		})
 	}
 	return out
+}
+
+// isErrorConstructor: a function that makes an error (KeywordError, BodyError, ...): returning its result is a failure,
+// not a check.
+func isErrorConstructor(f *types.Func) bool {
+	switch f.Name() {
+	case "KeywordError", "BodyError", "BodyErrorIndex", "ParameterError", "NewJApiError", "japiError":
+		return true
+	}
+	return false
 }
 
 func (c *Ctx) ruleEarlySuccess(rule string) {
